@@ -95,17 +95,138 @@ func usesSym(text, sym string) bool {
 var reStrK = regexp.MustCompile(`str_k(\d+)`)
 var reF64K = regexp.MustCompile(`f64_k(\d+)`)
 
+var reIdent = regexp.MustCompile(`[A-Za-z_][A-Za-z0-9_!]*`)
+
+func tokens(text string, into map[string]bool) {
+	for _, m := range reIdent.FindAllString(text, -1) {
+		into[m] = true
+	}
+}
+
+// preamble emits sorts, function declarations, constants and axioms for exactly
+// the symbols in syms (closed under what the selected axioms mention).
 func (e *Engine) preamble(body string) string {
+	syms := map[string]bool{}
+	tokens(body, syms)
+	return e.preambleSyms(syms)
+}
+
+func (e *Engine) preambleSyms(in map[string]bool) string {
+	syms := make(map[string]bool, len(in)+64)
+	for k := range in {
+		syms[k] = true
+	}
 	var b strings.Builder
 	b.WriteString("(set-option :produce-models true)\n(set-logic ALL)\n")
+	var ax strings.Builder
+	addAx := func(text string) {
+		ax.WriteString(text + "\n")
+		tokens(text, syms)
+	}
+	for changed := true; changed; {
+		changed = false
+		for i := range axioms {
+			a := &axioms[i]
+			if syms["@ax"+fmt.Sprint(i)] {
+				continue
+			}
+			for _, t := range a.trigger {
+				if syms[t] {
+					syms["@ax"+fmt.Sprint(i)] = true
+					addAx(a.text)
+					changed = true
+					break
+				}
+			}
+		}
+		for i, a := range e.extraAxioms {
+			if syms["@xax"+fmt.Sprint(i)] {
+				continue
+			}
+			for _, t := range a.trigger {
+				if syms[t] {
+					syms["@xax"+fmt.Sprint(i)] = true
+					addAx(a.text)
+					changed = true
+					break
+				}
+			}
+		}
+	}
+	// string and float constants
+	var consts strings.Builder
+	var strKs []int
+	for sym := range syms {
+		if strings.HasPrefix(sym, "str_k") {
+			var k int
+			if _, err := fmt.Sscanf(sym, "str_k%d", &k); err == nil && k < len(e.strList) {
+				strKs = append(strKs, k)
+			}
+		}
+	}
+	sort.Ints(strKs)
+	for _, k := range strKs {
+		name := fmt.Sprintf("str_k%d", k)
+		lit := e.strList[k]
+		fmt.Fprintf(&consts, "(declare-const %s Str) ; %q\n(assert (= (slen %s) %d))\n", name, lit, name, len(lit))
+		for i := 0; i < len(lit); i++ {
+			fmt.Fprintf(&consts, "(assert (= (sat %s %d) %d))\n", name, i, lit[i])
+		}
+		if len(lit) <= 12 {
+			// literal extensionality: a string with the literal's content is the literal
+			fmt.Fprintf(&consts, "(assert (forall ((a Str)) (! (=> (and (= (slen a) %d)", len(lit))
+			for i := 0; i < len(lit); i++ {
+				fmt.Fprintf(&consts, " (= (sat a %d) %d)", i, lit[i])
+			}
+			fmt.Fprintf(&consts, ") (= a %s)) :pattern ((slen a)))))\n", name)
+		}
+		syms["slen"], syms["sat"] = true, true
+	}
+	var fks []int
+	for sym := range syms {
+		if strings.HasPrefix(sym, "f64_k") {
+			var k int
+			if _, err := fmt.Sscanf(sym, "f64_k%d", &k); err == nil && k < len(e.f64List) {
+				fks = append(fks, k)
+			}
+		}
+	}
+	sort.Ints(fks)
+	for _, k := range fks {
+		fmt.Fprintf(&consts, "(declare-const f64_k%d F64) ; %v\n", k, e.f64List[k])
+		syms["f64_lt"], syms["f64_le"], syms["f64_eq"] = true, true, true
+	}
+	for _, i := range fks {
+		for _, j := range fks {
+			if i == j {
+				continue
+			}
+			if e.f64List[i] < e.f64List[j] {
+				fmt.Fprintf(&consts, "(assert (and (f64_lt f64_k%d f64_k%d) (f64_le f64_k%d f64_k%d) (not (f64_lt f64_k%d f64_k%d)) (not (f64_le f64_k%d f64_k%d)) (not (f64_eq f64_k%d f64_k%d))))\n", i, j, i, j, j, i, j, i, i, j)
+			}
+		}
+		fmt.Fprintf(&consts, "(assert (and (f64_eq f64_k%d f64_k%d) (f64_le f64_k%d f64_k%d) (not (f64_lt f64_k%d f64_k%d))))\n", i, i, i, i, i, i)
+	}
+	if syms["f64_lt"] || syms["f64_le"] {
+		consts.WriteString("(assert (forall ((a F64) (b F64)) (! (= (f64_le a b) (or (f64_lt a b) (f64_eq a b))) :pattern ((f64_le a b)))))\n")
+		syms["f64_eq"], syms["f64_lt"], syms["f64_le"] = true, true, true
+	}
 	// sorts: every registered sort whose name occurs
 	roots := map[*Sort]bool{SStr: true, SF64: true, SErr: true}
 	for name, s := range sorts.byName {
 		if s.Kind == KArray {
 			continue
 		}
-		if strings.Contains(body, name) {
+		if syms[name] {
 			roots[s] = true
+			continue
+		}
+		// constructor / selector names imply the sort
+		for sym := range syms {
+			if strings.HasPrefix(sym, name+"_") {
+				roots[s] = true
+				break
+			}
 		}
 	}
 	b.WriteString(sortDecls(roots))
@@ -115,97 +236,17 @@ func (e *Engine) preamble(body string) string {
 			fmt.Fprintf(&b, "(declare-fun %s_n (%s) Int)\n(assert (forall ((s %s)) (! (= (%s_n s) (ite (>= (%s_len s) 0) (%s_len s) 0)) :pattern ((%s_n s)))))\n", s.Name, s.Name, s.Name, s.Name, s.Name, s.Name, s.Name)
 		}
 	}
-	var ax strings.Builder
-	for _, a := range axioms {
-		for _, t := range a.trigger {
-			if usesSym(body, t) {
-				ax.WriteString(a.text + "\n")
-				break
-			}
-		}
-	}
-	for _, a := range e.extraAxioms {
-		for _, t := range a.trigger {
-			if usesSym(body, t) {
-				ax.WriteString(a.text + "\n")
-				break
-			}
-		}
-	}
-	all := body + ax.String()
-	if strings.Contains(all, "str_k") {
-		all += " (slen x) (sat x 0) "
-	}
-	if strings.Contains(all, "f64_k") {
-		all += " (f64_lt x) (f64_le x) (f64_eq x) "
-	}
 	for _, d := range ufDecls {
-		if usesSym(all, d.name) {
+		if syms[d.name] {
 			b.WriteString(d.decl + "\n")
 		}
 	}
 	for _, d := range e.extraDecls {
-		if usesSym(all, d.name) {
+		if syms[d.name] {
 			b.WriteString(d.decl + "\n")
 		}
 	}
-	// string constants
-	seen := map[string]bool{}
-	for _, m := range reStrK.FindAllStringSubmatch(all, -1) {
-		if seen[m[0]] {
-			continue
-		}
-		seen[m[0]] = true
-		var k int
-		fmt.Sscanf(m[1], "%d", &k)
-		if k >= len(e.strList) {
-			continue
-		}
-		lit := e.strList[k]
-		fmt.Fprintf(&b, "(declare-const %s Str) ; %q\n(assert (= (slen %s) %d))\n", m[0], lit, m[0], len(lit))
-		for i := 0; i < len(lit); i++ {
-			fmt.Fprintf(&b, "(assert (= (sat %s %d) %d))\n", m[0], i, lit[i])
-		}
-		if len(lit) <= 12 {
-			// literal extensionality: a string with the literal's content is the literal
-			fmt.Fprintf(&b, "(assert (forall ((a Str)) (! (=> (and (= (slen a) %d)", len(lit))
-			for i := 0; i < len(lit); i++ {
-				fmt.Fprintf(&b, " (= (sat a %d) %d)", i, lit[i])
-			}
-			fmt.Fprintf(&b, ") (= a %s)) :pattern ((slen a)))))\n", m[0])
-		}
-	}
-	var fks []int
-	seenF := map[int]bool{}
-	for _, m := range reF64K.FindAllStringSubmatch(all, -1) {
-		var k int
-		fmt.Sscanf(m[1], "%d", &k)
-		if !seenF[k] && k < len(e.f64List) {
-			seenF[k] = true
-			fks = append(fks, k)
-		}
-	}
-	sort.Ints(fks)
-	for _, k := range fks {
-		fmt.Fprintf(&b, "(declare-const f64_k%d F64) ; %v\n", k, e.f64List[k])
-	}
-	for _, i := range fks {
-		for _, j := range fks {
-			if i == j {
-				continue
-			}
-			if e.f64List[i] < e.f64List[j] {
-				fmt.Fprintf(&b, "(assert (and (f64_lt f64_k%d f64_k%d) (f64_le f64_k%d f64_k%d) (not (f64_lt f64_k%d f64_k%d)) (not (f64_le f64_k%d f64_k%d)) (not (f64_eq f64_k%d f64_k%d))))\n", i, j, i, j, j, i, j, i, i, j)
-			}
-		}
-		fmt.Fprintf(&b, "(assert (and (f64_eq f64_k%d f64_k%d) (f64_le f64_k%d f64_k%d) (not (f64_lt f64_k%d f64_k%d))))\n", i, i, i, i, i, i)
-	}
-	if strings.Contains(all, "f64_lt") || strings.Contains(all, "f64_le") {
-		b.WriteString("(assert (forall ((a F64) (b F64)) (! (= (f64_le a b) (or (f64_lt a b) (f64_eq a b))) :pattern ((f64_le a b)))))\n")
-	}
-	if !usesSymAny(all, "f64_lt", "f64_le", "f64_eq") {
-		// nothing
-	}
+	b.WriteString(consts.String())
 	b.WriteString(ax.String())
 	return b.String()
 }
@@ -243,13 +284,20 @@ type Obligation struct {
 func (x *Exec) queries(fname string) []*Obligation {
 	var out []*Obligation
 	var body strings.Builder
+	// symbols seen so far (events are scanned once; each obligation gets the
+	// preamble of exactly the symbols that occur before it)
+	seen := map[string]bool{}
+	x.allSyms = seen
 	for _, ev := range x.events {
 		switch ev.Kind {
 		case EvDecl:
+			tokens(ev.Text, seen)
 			body.WriteString(ev.Text + "\n")
 		case EvAssume:
+			tokens(ev.T.S, seen)
 			body.WriteString("(assert " + ev.T.S + ")\n")
 		case EvAssert:
+			tokens(ev.T.S, seen)
 			ob := &Obligation{Func: fname, Name: fname + "/" + ev.Name, Short: ev.Name, Pos: ev.Pos, Info: ev.Info, Inputs: x.inputs}
 			if ev.T.S == "true" {
 				ob.Status = "trivial"
@@ -259,7 +307,10 @@ func (x *Exec) queries(fname string) []*Obligation {
 					goal = "(=> " + hyp.S + " " + goal + ")"
 				}
 				q := body.String() + "(assert (not " + goal + "))\n(check-sat)\n"
-				ob.Query = x.eng.preamble(q) + q
+				if hyp, ok := x.carve[ev.Name]; ok {
+					tokens(hyp.S, seen)
+				}
+				ob.Query = x.eng.preambleSyms(seen) + q
 				ob.Size = len(ob.Query)
 			}
 			out = append(out, ob)
@@ -289,7 +340,7 @@ func (x *Exec) endQuery() string {
 		}
 	}
 	q := body.String() + "(check-sat)\n"
-	return x.eng.preamble(q) + q
+	return x.eng.preambleSyms(x.allSyms) + q
 }
 
 // vacuityQuery: the assumptions up to the end of the root's requires must be satisfiable.
